@@ -1,6 +1,6 @@
 """C17 - matching depends only on structure; quantifiers behave like regular expressions; search == filtered walk."""
 
-import ast
+import ast, json
 import itertools
 import re
 
@@ -13,9 +13,9 @@ META = {
              'single captures); (b) every node of REAL windows matched against its own pure AST and against one-leaf mutations; '
              '(d) search(p) vs [n for n in walk(True) if n.match(p)] for a pattern battery; (a) same pattern on LAYOUT variants, '
              'on unparse-reparse and on the pure AST; (c) every match evaluated twice, interleaved, shared empties asserted empty. '
-             'A cell is a distinct (component, pattern shape) or (component, node class, leaf kind). Quantifier items also include anonymous sub-patterns holding an INNER tag plus a static tag on the quantifier (inner tag == capture of the last kept iteration as in re, static tag present); the search battery includes every non-leaf AST class (unaryop, operator, boolop, cmpop, expr_context, pattern, ...), AST instances (Load(), Add(), Name(..)) and MNOT/MAND/MOR/MTYPES combinations of them.'),
+             'A cell is a distinct (component, pattern shape) or (component, node class, leaf kind). Quantifier items also include anonymous sub-patterns holding an INNER tag plus a static tag on the quantifier (inner tag == capture of the last kept iteration as in re, static tag present) and TAGGED quantifiers that also carry a static tag (capture list as in re after backtracking, static tag present); the search battery includes every non-leaf AST class (unaryop, operator, boolop, cmpop, expr_context, pattern, ...), AST instances (Load(), Add(), Name(..)) and MNOT/MAND/MOR/MTYPES combinations of them, plus 40 RANDOM boolean combinators per window (depth <= 3) mixing bare types with field-constrained atoms (MName(ctx=..), MConstant(1), MTYPES((Name, Attribute), ctx=MStore) ...), which is where a type-only shortcut of the search pre-filter would be unsound.'),
     'budget': {'quick': 45, 'thorough': 900},
-    'floors': {'quick': {'q_inner_and_static_tags_compared': 80000, 'q_matches': 200000, 'self_match': 1500, 'leaf_mut': 800, 'search_cmp': 300, 'layout_cmp': 300},
+    'floors': {'quick': {'q_inner_and_static_tags_compared': 80000, 'q_tagged_with_static_tag_compared': 80000, 'q_matches': 200000, 'self_match': 1500, 'leaf_mut': 800, 'search_cmp': 300, 'layout_cmp': 300},
                'thorough': {'q_inner_and_static_tags_compared': 500000, 'q_matches': 3000000, 'self_match': 20000, 'leaf_mut': 10000, 'search_cmp': 4000, 'layout_cmp': 4000}},
     'exhaustive': {'quick': False, 'thorough': False},
     'assumptions': ['Python re module is the reference for quantifier semantics', 'nested quantifiers inside a quantifier subsequence are excluded (documented as not mixing with the parent)',
@@ -47,6 +47,10 @@ def build_items():
         for mn, mx in ((0, None), (1, None), (0, 1), (0, 2)):
             for greedy in (True, False):
                 items.append(('qa', inner, mn, mx, greedy))
+    for inner in ('a', '.', 'ab'):   # TAGGED quantifier that also carries a static tag (capture list + static tag both judged)
+        for mn, mx in ((0, None), (1, None), (0, 2)):
+            for greedy in (True, False):
+                items.append(('qt', inner, mn, mx, greedy))
     items.append(('tag', '.'))   # M(t=...) capture of one element
     items.append(('tag', 'a'))
     items.append(('ref',))       # MTAG('t') back-reference
@@ -64,7 +68,7 @@ def item_regex(item, k):
         return item[1]
     if kind == 'dot':
         return '.'
-    if kind == 'q':
+    if kind in ('q', 'qt'):
         _, inner, mn, mx, greedy = item
         return '(?P<g%d>(?:%s){%d,%s}%s)' % (k, inner, mn, '' if mx is None else mx, '' if greedy else '?')
     if kind == 'qa':
@@ -85,7 +89,7 @@ def item_regex(item, k):
 
 
 def item_width(item):
-    if item[0] == 'q':
+    if item[0] in ('q', 'qt'):
         return len(item[1])
     if item[0] == 'qn':
         return len(item[3])
@@ -103,6 +107,10 @@ def item_pattern(item, k, M, tagname=None):
         _, inner, mn, mx, greedy = item
         cls = M.MQ if greedy else M.MQ.NG
         return cls(min=mn, max=mx, **{'g%d' % k: inner_pat(inner)})
+    if kind == 'qt':
+        _, inner, mn, mx, greedy = item
+        cls = M.MQ if greedy else M.MQ.NG
+        return cls(min=mn, max=mx, **{'g%d' % k: inner_pat(inner), 's%d' % k: k + 100})
     if kind == 'qa':
         _, inner, mn, mx, greedy = item
         cls = M.MQ if greedy else M.MQ.NG
@@ -255,7 +263,10 @@ def run_quantifiers(ctx, FST, M):
             bad = None
             for k, i in enumerate(pi):
                 it = items[i]
-                if it[0] in ('q', 'qc', 'qn'):
+                if it[0] == 'qt' and got.tags.get('s%d' % k) != k + 100:
+                    bad = (k, 'static-tag-of-tagged-quantifier', repr(got.tags.get('s%d' % k)), k + 100)
+                    break
+                if it[0] in ('q', 'qc', 'qn', 'qt'):
                     span = want.group('g%d' % k)
                     tag = got.tags.get('g%d' % k)
                     w = item_width(it)
@@ -270,6 +281,8 @@ def run_quantifiers(ctx, FST, M):
                         bad = (k, 'text', texts, span)
                         break
                     ctx.count('q_captures_compared')
+                    if it[0] == 'qt':
+                        ctx.count('q_tagged_with_static_tag_compared')
                 elif it[0] == 'qa':
                     if got.tags.get('s%d' % k) != k + 100:
                         bad = (k, 'static-tag-of-quantifier', repr(got.tags.get('s%d' % k)), k + 100)
@@ -437,6 +450,52 @@ def pattern_battery(M, rnd, root):
     return P
 
 
+# random boolean combinators over atoms: search() derives the node types it visits from the pattern (type-only shortcuts of
+# MNOT / MOR / MAND / MTYPES), so every mix of bare types with FIELD-CONSTRAINED atoms must still agree with match()
+_ATOMS = ['Name', 'Attribute', 'Constant', 'Call', 'BinOp', 'expr', 'stmt', 'operator', 'expr_context', 'arg', 'keyword', 'Assign', 'Return',
+          'MName(id=self)', 'MName(ctx=Store)', 'MName(ctx=MStore)', 'MConstant(1)', 'MConstant(str)', 'MAttribute(attr=x)', 'MCall(args=[])',
+          'MTYPES(Name,Attribute;ctx=MStore)', 'MTYPES(Name,Attribute;ctx=Store)', 'MTYPES(Name;id=self)', 'MTYPES(Name,Constant)', 'MTYPES(Constant;value=1)',
+          'MTYPES(If,While;orelse=[])', "'self'", 'Load()', 'MStore()', 'MBinOp(op=Add)']
+
+
+def gen_spec(rnd, depth=0):
+    r = rnd.random()
+    if depth >= 3 or r < 0.3 + 0.15 * depth:
+        return rnd.choice(_ATOMS)
+    if r < 0.62:
+        return ['MNOT', gen_spec(rnd, depth + 1)]
+    op = 'MOR' if r < 0.82 else 'MAND'
+    return [op] + [gen_spec(rnd, depth + 1) for _ in range(rnd.randint(2, 3))]
+
+
+def build_spec(M, spec):
+    if isinstance(spec, list):
+        args = [build_spec(M, x) for x in spec[1:]]
+        return getattr(M, spec[0])(*args)
+    table = {
+        'MName(id=self)': lambda: M.MName(id='self'), 'MName(ctx=Store)': lambda: M.MName(ctx=ast.Store), 'MName(ctx=MStore)': lambda: M.MName(ctx=M.MStore),
+        'MConstant(1)': lambda: M.MConstant(1), 'MConstant(str)': lambda: M.MConstant(value=str), 'MAttribute(attr=x)': lambda: M.MAttribute(attr='x'),
+        'MCall(args=[])': lambda: M.MCall(args=[]), 'MTYPES(Name,Attribute;ctx=MStore)': lambda: M.MTYPES((ast.Name, ast.Attribute), ctx=M.MStore),
+        'MTYPES(Name,Attribute;ctx=Store)': lambda: M.MTYPES((ast.Name, ast.Attribute), ctx=ast.Store), 'MTYPES(Name;id=self)': lambda: M.MTYPES((ast.Name,), id='self'),
+        'MTYPES(Name,Constant)': lambda: M.MTYPES((ast.Name, ast.Constant)), 'MTYPES(Constant;value=1)': lambda: M.MTYPES((ast.Constant,), value=1),
+        'MTYPES(If,While;orelse=[])': lambda: M.MTYPES((ast.If, ast.While), orelse=[]), "'self'": lambda: 'self', 'Load()': lambda: ast.Load(), 'MStore()': lambda: M.MStore(),
+        'MBinOp(op=Add)': lambda: M.MBinOp(op=ast.Add),
+    }
+    if spec in table:
+        return table[spec]()
+    return getattr(ast, spec)
+
+
+def spec_battery(M, rnd, n):
+    out = []
+    for _ in range(n):
+        spec = gen_spec(rnd)
+        if not isinstance(spec, list):
+            spec = ['MNOT', spec]
+        out.append(('spec:' + json.dumps(spec), (lambda spec=spec: build_spec(M, spec))))
+    return out
+
+
 def run_search(ctx, FST, M, n_windows):
     from .. import corpus
     for _ in range(n_windows):
@@ -447,7 +506,9 @@ def run_search(ctx, FST, M, n_windows):
             root = FST(src, 'exec')
         except Exception:
             continue
-        for name, mk in pattern_battery(M, ctx.rnd, root):
+        for name, mk in pattern_battery(M, ctx.rnd, root) + spec_battery(M, ctx.rnd, 40):
+            if name.startswith('spec:'):
+                ctx.count('search_random_combinator_patterns')
             for kw in ({}, {'back': True}, {'self_': False}, {'recurse': False}):
                 if kw and ctx.rnd.random() < 0.6:
                     continue
